@@ -220,22 +220,20 @@ def run(ctx):
     r4.check(bool(res) and 'ex.accepted' in norm(res[0].ast.value, 400),
              ctx.construct(gr, extra='accepted only'),
              'result list is not filtered on accepted', ctx.loc(gr))
-    writers = {
-        'mistral.engine.actions.RegularAction._prepare_runtime_context':
-            "'index': index",
-        'mistral.engine.actions.WorkflowAction.schedule': "'index': index",
-        'mistral.engine.workflows.Workflow._create_execution':
-            "'index': params.get('index', 0)",
-    }
-    for q, frag in writers.items():
+    for q in ('mistral.engine.actions.RegularAction.'
+              '_prepare_runtime_context',
+              'mistral.engine.actions.WorkflowAction.schedule',
+              'mistral.engine.workflows.Workflow._create_execution'):
         wf = prog.func(q)
-        r4.check(frag in ' '.join(ast.unparse(wf.node).split()),
+        r4.check(U.writes_key(wf.node, 'index'),
                  ctx.construct(wf, extra="writes 'index'"),
                  "the item index is no longer written under key 'index'",
                  ctx.loc(wf))
     gn = prog.func(WIT + '._get_next_indexes')
-    r4.check("ex.runtime_context['index']" in
-             ' '.join(ast.unparse(gn.node).split()),
+    inner = [x for qq, x in prog.funcs.items()
+             if qq.startswith(gn.qname + '.<locals>.')]
+    r4.check(any(U.reads_key(x.node, 'index', 'runtime_context')
+                 for x in [gn] + inner),
              ctx.construct(gn, extra="reads 'index'"),
              "_get_next_indexes no longer reads the key 'index'", ctx.loc(gn))
 
@@ -253,9 +251,11 @@ def run(ctx):
              ctx.construct(fs, extra='precedence'),
              'final state precedence is %s, expected CANCELLED, ERROR, '
              'SUCCESS' % order, ctx.loc(fs))
-    txt = ' '.join(ast.unparse(fs.node).split())
-    r5.check('x.accepted and x.state == states.CANCELLED' in txt and
-             'x.accepted and x.state == states.ERROR' in txt,
+    lc = U.lambda_names(fs.node,
+                        '__x.accepted and __x.state == states.CANCELLED')
+    le = U.lambda_names(fs.node,
+                        '__x.accepted and __x.state == states.ERROR')
+    r5.check(bool(lc) and bool(le),
              ctx.construct(fs, extra='accepted executions only'),
              'final state looks at executions that are not accepted',
              ctx.loc(fs))
@@ -264,25 +264,41 @@ def run(ctx):
     for x in rets:
         v = norm(x.ast.value)
         g = cfg.guards(x)
+        used = {y.id for y in ast.walk(g[0][0])
+                if isinstance(y, ast.Name)} if g else set()
         if v == 'states.CANCELLED':
-            ok = ok and g and g[0][1] and 'find_cancelled' in norm(g[0][0])
+            ok = ok and bool(g) and g[0][1] and bool(used & lc)
         if v == 'states.ERROR':
-            ok = ok and g and g[0][1] and 'find_error' in norm(g[0][0])
+            ok = ok and bool(g) and g[0][1] and bool(used & le)
     r5.check(ok, ctx.construct(fs, extra='guards'),
              'CANCELLED/ERROR returns are not under their own tests',
              ctx.loc(fs))
     wc = prog.func(WIT + '.is_with_items_completed')
     rets = [x for x in own_nodes(wc.node) if isinstance(x, ast.Return)]
     last = sorted(rets, key=lambda z: z.lineno)[-1]
-    r5.check(norm(last.value) in ('count == len(execs) and full_capacity',
-                                  'full_capacity and count == len(execs)'),
-             ctx.construct(wc, extra='all accepted and full capacity'),
+    m = U.pfind(last.value, '__count == len(__execs) and __full')
+    m = [b for nn, b in m if nn is last.value]
+    okd = False
+    if m:
+        b = m[0]
+        ev = norm(b['__execs'])
+        fv = norm(b['__full'])
+        acc = any(isinstance(n, ast.Assign) and norm(n.targets[0]) == ev and
+                  any(isinstance(c, ast.comprehension) and any(
+                      U.phas(i, '__t.accepted') for i in c.ifs)
+                      for c in ast.walk(n.value))
+                  for n in own_nodes(wc.node))
+        full = any(isinstance(n, ast.Assign) and norm(n.targets[0]) == fv and
+                   U.phas(n.value, 'not self._get_concurrency() or '
+                          'self._get_with_items_capacity() == '
+                          'self._get_concurrency()')
+                   for n in own_nodes(wc.node))
+        okd = acc and full
+    r5.check(bool(m), ctx.construct(wc, extra='all accepted and full '
+                                    'capacity'),
              'completion no longer requires count == accepted AND full '
              'capacity: %s' % norm(last.value), ctx.loc(wc))
-    txt = ' '.join(ast.unparse(wc.node).split())
-    r5.check('if t.accepted' in txt and
-             'self._get_with_items_capacity() == self._get_concurrency()'
-             in txt, ctx.construct(wc, extra='definitions'),
+    r5.check(okd, ctx.construct(wc, extra='definitions'),
              'accepted filter / full-capacity definition changed',
              ctx.loc(wc))
     sa = prog.func(WIT + '._schedule_actions')
@@ -299,10 +315,23 @@ def run(ctx):
              'an empty item list does not complete the task with SUCCESS '
              'and return', ctx.loc(sa))
     ra = prog.func('mistral.engine.tasks.RegularTask._reset_actions')
-    txt = ' '.join(ast.unparse(ra.node).split())
-    r5.check('e.accepted and e.state in [states.ERROR, states.CANCELLED]'
-             in txt and 'if self.reset_flag' in txt and
-             'ex.accepted = False' in txt,
+    sel = U.phas(ra.node, '__e.accepted and __e.state in '
+                 '[states.ERROR, states.CANCELLED]') or \
+        U.phas(ra.node, '__e.accepted and __e.state in '
+               '[states.CANCELLED, states.ERROR]')
+    rcfg = ctx.cfg(ra)
+    allx = False
+    for n in own_nodes(ra.node):
+        if isinstance(n, ast.Assign) and U.phas(
+                n.value, 'self.task_ex.executions') and \
+                not isinstance(n.value, ast.ListComp):
+            sn = rcfg.stmt_node(n)
+            g = U.polarity_guard(rcfg, sn,
+                                 lambda t: norm(t) == 'self.reset_flag')
+            allx = allx or (g is not None and g[1] is True)
+    un = [st for t, st in U.attr_stores(ra.node) if t.attr == 'accepted']
+    r5.check(sel and allx and bool(un) and
+             all(norm(x.value) == 'False' for x in un),
              ctx.construct(ra, extra='partial rerun'),
              'without reset, executions other than accepted ERROR/CANCELLED '
              'ones are un-accepted', ctx.loc(ra))
@@ -374,10 +403,11 @@ def child_collections(ctx, rule):
                               'TaskExecution', 'executions')
     pf = prog.funcs.get('mistral.db.v2.sqlalchemy.models.TaskExecution.'
                         'executions')
-    ok = pf is not None and pf.has_decorator('property') and \
-        'action_executions' in ast.unparse(pf.node) and \
-        'workflow_executions' in ast.unparse(pf.node) and \
-        "spec.get('workflow')" in ast.unparse(pf.node)
+    ok = pf is not None and pf.has_decorator('property') and (
+        U.phas(pf.node, "self.action_executions if not "
+               "self.spec.get('workflow') else self.workflow_executions") or
+        U.phas(pf.node, "self.workflow_executions if "
+               "self.spec.get('workflow') else self.action_executions"))
     rule.check(ok, 'mistral.db.v2.sqlalchemy.models.TaskExecution.'
                'executions :: polymorphic', 'TaskExecution.executions no '
                'longer selects the collection by task kind',
